@@ -64,6 +64,18 @@ func runC06(c *Ctx, idx int) {
 		if r.Intn(2) == 0 {
 			s.Modules[0].TraitId = 1 + r.Intn(len(s.Traits))
 		}
+		if r.Intn(2) == 0 {
+			// the links of a module carry weights like any link: closed (zero), negative, anything - a copy keeps them
+			for i := range s.Modules {
+				for j := range s.Modules[i].InW {
+					s.Modules[i].InW[j] = fbits(pick(r, 0.0, 1.0, -2.5, r.NormFloat64()))
+				}
+				for j := range s.Modules[i].OutW {
+					s.Modules[i].OutW[j] = fbits(pick(r, 0.0, 1.0, 0.5, r.NormFloat64()))
+				}
+			}
+			c.Count("families.module_links_with_weights_of_their_own", 1)
+		}
 		f = newFamilyFrom(buildFromSnap(s), "file:"+modularGenomeFile+"+variants", o)
 	} else if idx%16 == 5 {
 		// trait ids that are unique but neither consecutive nor ascending (1,3,2 / 4,9,7): duplication resolves traits by id.
@@ -90,6 +102,21 @@ func runC06(c *Ctx, idx int) {
 		f = newFamilyFrom(buildFromSnap(sg), "built: trait ids not consecutive", o)
 		modular = true // (keeps the crossovers and the growth by operator histories away from it)
 		c.Count("families.trait_ids_not_consecutive", 1)
+	} else if idx%16 == 6 {
+		// traits with parameter lists of another length than the library's default of eight (its own tests use six): none at
+		// all, one, six; such a genome is duplicated, spawned from and mutated, never written or mated
+		sp := genSpec(r)
+		sg := snapGenome(buildGenome(r, sp, 1))
+		for i := range sg.Traits {
+			k := pick(r, 0, 0, 1, 6, 8)
+			if k < len(sg.Traits[i].Params) {
+				sg.Traits[i].Params = sg.Traits[i].Params[:k]
+			}
+		}
+		f = newFamilyFrom(buildFromSnap(sg), "built: traits with 0 / 1 / 6 parameters", o)
+		c06Spawn(c, f, r)
+		modular = true
+		c.Count("families.traits_with_other_parameter_counts", 1)
 	} else if idx%64 == 9 {
 		f = newFamilyFrom(buildFromSnap(largeGenomeSnap(r)), "built: >500 nodes", o)
 		modular = true
